@@ -74,6 +74,8 @@ def check_c18(run):
     recs, _ = _gen(run, "ConcGen.tla", "g1.cfg", conc_cfg("Kinds5", 3, 1, inv=False), "c1")
     recs2, _ = _gen(run, "ConcGen.tla", "g2.cfg", conc_cfg("Kinds2", 2, 2, inv=False), "c2")
     recs += recs2
+    recs7, _ = _gen(run, "ConcGen.tla", "g7.cfg", conc_cfg("Kinds7", 2, 1, inv=False), "c7")
+    recs += recs7
     if not quick:
         r3, _ = _gen(run, "ConcGen.tla", "g3.cfg", conc_cfg("Kinds5", 4, 1, inv=False), "c3")
         recs += r3
@@ -86,7 +88,7 @@ def check_c18(run):
                              "blocks": r["blocks"], "nest": nest})
     # seeded random larger bodies
     nrand = 150 if quick else 3000
-    kinds = ["asgL", "asgI", "func", "meth", "three"]
+    kinds = ["asgL", "asgI", "func", "meth", "three", "methL", "asgML"]
     for i in range(nrand):
         blocks = []
         n = 0
